@@ -357,4 +357,62 @@ theorem conv_root_RInv0 (g : Grammar) (o : Opts) (fuel root : Nat) (n : Node) (p
         have e2 : (post root n none r0 s2).2 = s1 := by rw [hb]
         exact e2 ▸ RInv0_post root n none r0 s2 hI1
 
+/-- the entry with index 1 and a name no other entry has comes first in the output -/
+theorem head_of_index_one (s : St) (root : Nat) (d : DEntry) (hdk : (s.diagrams.map (·.1)).Nodup)
+    (hd : aget s.diagrams root = some d) (hidx : d.index = 1)
+    (hothers : ∀ u e, aget s.diagrams u = some e → u ≠ root → 2 ≤ e.index)
+    (hsome : d.name.isSome) (hne : d.name ≠ some "...")
+    (huniq : ∀ u e, aget s.diagrams u = some e → e.name = d.name → u = root) :
+    (names (sortByIndex ((selected s).map (entryTree s)))).head? = some d.name := by
+  have hmem : d ∈ s.diagrams.map (·.2) := aget_mem _ _ _ hd
+  have hkey : ∀ e ∈ s.diagrams.map (·.2), ∃ u, aget s.diagrams u = some e := by
+    intro e he
+    obtain ⟨⟨u, e'⟩, hp, rfl⟩ := List.mem_map.mp he
+    exact ⟨u, mem_aget _ _ _ hdk hp⟩
+  have hroot_of_idx : ∀ e ∈ s.diagrams.map (·.2), e.index ≤ 1 → e = d := by
+    intro e he hle
+    obtain ⟨u, hu⟩ := hkey e he
+    by_cases hur : u = root
+    · subst hur; rw [hd] at hu; simp only [Option.some.injEq] at hu; exact hu.symm
+    · have := hothers u e hu hur; omega
+  have huniq' : ∀ e ∈ s.diagrams.map (·.2), e.name = d.name → e = d := by
+    intro e he hn
+    obtain ⟨u, hu⟩ := hkey e he
+    have hur := huniq u e hu hn
+    subst hur
+    rw [hd] at hu; simp only [Option.some.injEq] at hu; exact hu.symm
+  have hsel : d ∈ selected s := by
+    unfold selected
+    simp only
+    split
+    · exact dedupe_keeps _ [] d hmem hsome hne (by simp) huniq'
+    · exact hmem
+  have hsub : ∀ e ∈ selected s, e ∈ s.diagrams.map (·.2) := by
+    intro e he
+    unfold selected at he
+    simp only at he
+    split at he
+    · exact dedupe_sub _ _ _ he
+    · exact he
+  have hperm := sortByIndex_perm ((selected s).map (entryTree s))
+  have hsorted := sortByIndex_sorted ((selected s).map (entryTree s))
+  have hin : entryTree s d ∈ sortByIndex ((selected s).map (entryTree s)) :=
+    hperm.mem_iff.mpr (List.mem_map.mpr ⟨d, hsel, rfl⟩)
+  cases hds : sortByIndex ((selected s).map (entryTree s)) with
+  | nil => rw [hds] at hin; exact absurd hin (by simp)
+  | cons a rest =>
+    rw [hds] at hin hsorted
+    have ha_mem : a ∈ (selected s).map (entryTree s) := hperm.mem_iff.mp (by rw [hds]; exact List.mem_cons_self ..)
+    obtain ⟨e, he, rfl⟩ := List.mem_map.mp ha_mem
+    have hle : (entryTree s e).index ≤ 1 := by
+      rcases List.mem_cons.mp hin with h1 | h1
+      · rw [← h1]; show d.index ≤ 1; omega
+      · have := sorted_head_min rest _ hsorted _ h1
+        have h2 : (entryTree s d).index = 1 := hidx
+        omega
+    have hed : e = d := hroot_of_idx e (hsub e he) hle
+    subst hed
+    simp only [names, List.map_cons, List.head?_cons, Option.some.injEq]
+    rfl
+
 end PP.Diagram
